@@ -381,7 +381,7 @@ func firstLine(s string) string {
 
 func TestCheck(t *testing.T) {
 	r := vp.New("C11", "exploration",
-		"collections: every subset of 8 distinct protocol IDs (bitswap, graphsync-filecoin, gateway, 5 unknown codes) of size 1..N in every construction order; every variant combination (8 graphsync values, unknown payload lengths) for subsets of size <=K in sorted and reversed order; collections with repeated IDs. Decoder: for every corpus encoding every single-byte substitution, every truncation, every boundary varint written at every byte offset over 1..3 bytes, unknown-protocol headers declaring every length of the systematic set (2^k-1, 2^k, 2^k+1 for all k; the 25 values below 2^63 and below 2^64; the size limit +-12) for 6 codes x 3 tails; unknown payloads of every length 0..MaxMetadataSize; two-protocol out-of-order concatenations, and all byte strings of length <=2. Non-trivial: collections of >=2 protocols; decoder inputs other than the unmodified corpus.",
+		"collections: every subset of 8 distinct protocol IDs (bitswap, graphsync-filecoin, gateway, 5 unknown codes) of size 1..N in every construction order; every variant combination (8 graphsync values, unknown payload lengths) for subsets of size <=K in sorted and reversed order; collections with repeated IDs. Decoder: for every corpus encoding every single-byte substitution, every truncation, every boundary varint written at every byte offset over 1..3 bytes, unknown-protocol headers declaring every length of the systematic set (2^k-1, 2^k, 2^k+1 for all k; the 25 values below 2^63 and below 2^64; the size limit +-12) for 6 codes x 3 tails; unknown payloads of every length 0..MaxMetadataSize; graphsync-filecoin with identity piece CIDs of 0..300 digest bytes; two-protocol out-of-order concatenations, and all byte strings of length <=2. Non-trivial: collections of >=2 protocols; decoder inputs other than the unmodified corpus.",
 		"unknown protocols are constructed the way the decoder builds them (payload holds code, length prefix and data)",
 		"collections with repeated IDs are only required to be ID-sorted and to round-trip as a multiset (order among equal IDs is not defined by the statement)",
 		"allocation bound used: 64 KiB + 64 x input length, measured with runtime/metrics /gc/heap/allocs:bytes (span-granular for small objects)",
@@ -475,6 +475,27 @@ func TestCheck(t *testing.T) {
 			if n%64 <= 1 || n >= metadata.MaxMetadataSize-8 {
 				checkCollection(r, []proto{pGateway, unknownProto(code, n), pBitswap}, true)
 			}
+		}
+	}
+
+	// (e) graphsync-filecoin with piece CIDs of every length: identity-multihash
+	// CIDs with 0..300 digest bytes ("any piece CID"), alone and between others
+	for n := 0; n <= 300; n++ {
+		digest := make([]byte, n)
+		for i := range digest {
+			digest[i] = byte(i*5 + 1)
+		}
+		mh, err := multihash.Encode(digest, multihash.IDENTITY)
+		if err != nil {
+			panic(err)
+		}
+		pc := cid.NewCidV1(cid.Raw, mh)
+		gp := proto{label: fmt.Sprintf("gs(identity-piece-cid-%d)", n), id: multicodec.TransportGraphsyncFilecoinv1, mk: func() metadata.Protocol {
+			return &metadata.GraphsyncFilecoinV1{PieceCID: pc, VerifiedDeal: n%2 == 0, FastRetrieval: n%3 == 0}
+		}}
+		checkCollection(r, []proto{gp}, true)
+		if n%16 <= 1 {
+			checkCollection(r, []proto{pGateway, gp, pBitswap}, true)
 		}
 	}
 
